@@ -7,14 +7,15 @@ Open Scope Z_scope.
 
 (* the context frame: no skip when the slot does not hold the frame's own eip *)
 Lemma fpo_step_context : forall mem callee r i fs ra,
+  w_thing i = AllocatesBasePointer false ->
   win_frame_size i 0 = Some fs ->
   0 <= x_esp r -> 0 <= fs ->
   mem (x_esp r + fs) = Some ra -> ra <> x_eip r ->
   ra < 2 ^ 32 -> x_esp r + fs + 4 < 2 ^ 32 -> x_ebp r < 2 ^ 32 ->
   fpo_step mem [] callee r i = Some (mkX ra (x_esp r + fs + 4) (x_ebp r)).
 Proof.
-  intros mem callee r i fs ra Hfs Hesp0 Hfs0 Hm Hne Hra Hsp Hbp.
-  unfold fpo_step, frames_env. rewrite walker_has_gc_spec, walker_gcps_spec.
+  intros mem callee r i fs ra Habp Hfs Hesp0 Hfs0 Hm Hne Hra Hsp Hbp.
+  unfold fpo_step, frames_env. rewrite Habp. rewrite walker_has_gc_spec, walker_gcps_spec.
   change (spec_has_gc []) with false. change (spec_gcps []) with 0.
   unfold walk_win_fpo. cbv zeta. cbn [e_gcps e_callee e_mem e_has_gc].
   rewrite Hfs.
@@ -46,7 +47,7 @@ Theorem fpo_recovers_chain : forall mem in_stack lookup ebp (acts : list act) be
 Proof.
   intros mem in_stack lookup ebp acts. induction acts as [|[[i ps] ra] rest IH]; intros below eip esp HL Hesp Hbp.
   - reflexivity.
-  - cbn [fpo_layout] in HL. destruct HL as (Hl & His & Hfs & HF & Hm & Hra & Htop & Hctx & Hrest).
+  - cbn [fpo_layout] in HL. destruct HL as (Hl & Habp & His & Hfs & HF & Hm & Hra & Htop & Hctx & Hrest).
     cbn [length fpo_walk fpo_chain x_esp x_eip].
     replace (match below with [] => true | _ :: _ => in_stack esp end) with true
       by (destruct below; [reflexivity|symmetry; apply His; reflexivity]).
